@@ -6,6 +6,7 @@ Abstract objects are tagged tuples:
 Abstract types: 'any' 'int' 'float' 'str' 'bytes' 'bool' | ('enum',k) ('lit',[objs]) ('list',t) ('seq',t) ('mseq',t)
   ('tup*',t) ('deque',t) ('set',t) ('mset',t) ('fset',t) ('tup',[ts]) ('dict',k,v) ('map',k,v) ('mmap',k,v)
   ('opt',t) ('new',t) ('ann',t) ('final',t) ('alias',t) ('cls',k) ('td',k)
+  ('union',[k...],has_none)   Union[K.., (None)] of attrs classes / dataclasses of the world
 """
 from __future__ import annotations
 
@@ -77,6 +78,8 @@ def ty_sx(t) -> str:
         return "(%s %d)" % (k, t[1])
     if k == "lit":
         return "(" + " ".join(["lit"] + [obj_sx(v) for v in t[1]]) + ")"
+    if k == "union":
+        return "(" + " ".join(["ounion" if t[2] else "union"] + [str(c) for c in t[1]]) + ")"
     if k == "tup":
         return "(" + " ".join(["tup"] + [ty_sx(x) for x in t[1]]) + ")"
     if k in ("dict", "map", "mmap"):
@@ -226,6 +229,8 @@ def tuple_ify(o):
                 return (k, o[1])
             if k == "lit":
                 return (k, [tuple_ify(v) for v in o[1]])
+            if k == "union":
+                return (k, list(o[1]), bool(o[2]))
             if k == "tup":
                 return (k, [tuple_ify(v) for v in o[1]])
             if k in ("dict", "map", "mmap"):
